@@ -20,11 +20,13 @@ Verdict(r) ==
                 [] a.op = "ensure" -> Ensure(x, a.name)
                 [] a.op = "merge" -> Merge(x, a.name)
                 [] a.op = "clear" -> <<>>
+                [] a.op = "setpath" -> SetPath2(x, a.a, a.b, a.val)
                 [] OTHER -> x
         ey == IF a.op = "append" /\ a.t = "y" THEN Append(y, a.node) ELSE y
         eres == CASE a.op = "add" -> Extend(x, y)
                   [] a.op = "copymut" -> SetStr(x, a.name, a.val)
-                  [] a.op = "lookup" -> [get |-> GetStr(x, a.name), has |-> Contains(x, a.name)]
+                  [] a.op = "lookup" -> [get |-> GetStr(x, a.name), has |-> Contains(x, a.name), all |-> FindAll(x, a.name),
+                                         key |-> FindIdx(x, a.name), block |-> FindBlockIdx(x, a.name)]
                   [] OTHER -> r.res
     IN  IF r.post.x # ex THEN Bad("kv.left_operand", ex)
         ELSE IF r.post.y # ey THEN Bad("kv.right_operand", ey)
